@@ -146,13 +146,14 @@ func (m *Charge) GetTotal() num.Amount {
 }
 
 func (m *Charge) removeIncludedTaxes(cat cbc.Code) *Charge {
-	accuracy := defaultTaxRemovalAccuracy
 	rate := m.Taxes.Get(cat)
 	if rate == nil || rate.Percent == nil {
 		return m
 	}
 	m2 := *m
-	m2.Amount = m2.Amount.Upscale(accuracy).Remove(*rate.Percent)
+	// Keep the precision the amount is presented with, any extra decimals
+	// would be lost on rounding and the next calculation would not match.
+	m2.Amount = m2.Amount.Remove(*rate.Percent)
 	return &m2
 }
 
